@@ -546,6 +546,45 @@ def directed(rng):
     return D
 
 
+def typed_counter_case(rng):
+    """one end tag closing several nested levels that each hold same-named elements, then more siblings of that
+    name: exercises TypedChildCounterMap::pop_to / the cumulative counters after a multi-level pop"""
+    t = lambda n: ("t", n)
+    st = lambda n, attrs=(), ns="h", sc=False: ("s", n, ns, sc, list(attrs))
+    en = lambda n: ("e", n)
+    n = rng.choice(["p", "li", "b", "q7", "x-a"])
+    outer, mid, inner = rng.sample(["div", "section", "ul", "table", "em", "span"], 3)
+    evs = [st(outer)]
+    for _ in range(rng.randrange(0, 3)):
+        evs += [st(n), en(n)]
+    evs.append(st(mid))
+    for _ in range(rng.randrange(1, 3)):
+        evs.append(st(n))
+    if rng.random() < 0.6:
+        evs.append(st(inner))
+        for _ in range(rng.randrange(1, 3)):
+            evs.append(st(n))
+    evs.append(en(mid) if rng.random() < 0.7 else en(outer))
+    for _ in range(rng.randrange(1, 4)):
+        evs += [st(n)] + ([en(n)] if rng.random() < 0.6 else [])
+    if rng.random() < 0.5:
+        evs.append(en(outer))
+        evs += [st(n), en(n)]
+    sels = []
+    for _ in range(rng.randrange(1, 4)):
+        r = rng.random()
+        if r < 0.4:
+            comp = [t(n), ("o", 0, rng.randrange(1, 5))]          # :nth-of-type(k)
+        elif r < 0.6:
+            comp = [t(n), ("o", rng.choice([1, 2]), rng.randrange(0, 3))]
+        elif r < 0.8:
+            comp = [t(n), ("o", 0, 1)]                            # first-of-type shape
+        else:
+            comp = [t(n), ("n", 0, rng.randrange(1, 6))]          # :nth-child(k)
+        sels.append([[comp]])
+    return sels, evs
+
+
 def make_case(rng, sels, evs, esi):
     html = html_of(evs)
     r = rng.random()
@@ -574,6 +613,12 @@ def gen(rng, n, tier, pid):
         _META[c] = (sels, evs)
         cases.append(c)
     while len(cases) < n:
+        if rng.random() < 0.06:
+            sels, evs = typed_counter_case(rng)
+            c = make_case(rng, sels, evs, False)
+            _META[c] = (sels, evs)
+            cases.append(c)
+            continue
         esi = rng.random() < 0.15
         nsel = rng.choice([1, 1, 2, 2, 3, 4, 6])
         if rng.random() < 0.04:
